@@ -1,7 +1,7 @@
 #!/bin/bash
 # try_benign.sh <diff file> <property> [tier]: apply a behaviour-preserving edit on a scratch worktree of /repo HEAD and run the check
 # there (VERIF_REPO); expected exit 0 (or 2 = no verdict), never 1. The worktree is removed afterwards.
-DIFF=$1; PID=$2; TIER=${3:-quick}
+DIFF=$1; [ -f "$DIFF" ] || DIFF=/verif/benign/$1.diff; PID=$2; TIER=${3:-quick}
 TAG=$(basename $DIFF .diff)
 WT=/tmp/wt_ben_$TAG
 git -C /repo worktree remove --force $WT >/dev/null 2>&1
